@@ -360,6 +360,10 @@ class ModuleContext(TreeContextMixin, ValueContext):
 
 
 class NamespaceContext(TreeContextMixin, ValueContext):
+    # An implicit namespace package has no source file: like CompiledContext,
+    # report "no code lines" so that BaseName.get_line_code() returns ''.
+    code_lines = None
+
     def get_filters(self, until_position=None, origin_scope=None):
         return self._value.get_filters()
 
